@@ -134,3 +134,92 @@ def component(c):
 def circuit(desc):
     from CircuitCalculator.Circuit.circuit import Circuit
     return Circuit([component(c) for c in desc["components"]])
+
+
+# ------------------------------------------------------------------ schematic drawings
+def _symbol(it):
+    import CircuitCalculator.SimpleCircuit.Elements as elm
+    k, p, name = it["kind"], it.get("params", {}), it["name"]
+    rev = bool(it.get("reverse", False))
+    src_opts = {kk: p[kk] for kk in ("deg", "sin") if kk in p}
+    if k == "resistor":
+        return elm.Resistor(R=p["R"], name=name)
+    if k == "conductance":
+        return elm.Conductance(G=p["G"], name=name)
+    if k == "impedance":
+        return elm.Impedance(Z=complex(p["Z"][0], p["Z"][1]), name=name)
+    if k == "capacitor":
+        return elm.Capacitor(C=p["C"], name=name)
+    if k == "inductance":
+        return elm.Inductance(L=p["L"], name=name)
+    if k == "lamp":
+        return elm.Lamp(V_ref=p["V_ref"], P_ref=p["P_ref"], name=name)
+    if k == "switch_open":
+        return elm.Switch(name=name, state=elm.SwitchState.OPEN)
+    if k == "switch_closed":
+        return elm.Switch(name=name, state=elm.SwitchState.CLOSED)
+    if k == "labeled_wire":
+        return elm.LabeledLine(name=name)
+    if k == "dc_v":
+        return elm.VoltageSource(V=p["V"], name=name, reverse=rev)
+    if k == "dc_i":
+        return elm.CurrentSource(I=p["I"], name=name, reverse=rev)
+    if k == "complex_v":
+        return elm.ComplexVoltageSource(V=complex(p["V"][0], p["V"][1]), name=name, reverse=rev)
+    if k == "complex_i":
+        return elm.ComplexCurrentSource(I=complex(p["I"][0], p["I"][1]), name=name, reverse=rev)
+    if k == "ac_v":
+        return elm.ACVoltageSource(V=p["V"], w=p["w"], phi=p["phi"], name=name, reverse=rev, **src_opts)
+    if k == "ac_i":
+        return elm.ACCurrentSource(I=p["I"], w=p["w"], phi=p["phi"], name=name, reverse=rev, **src_opts)
+    cls = {"rect_v": "RectVoltageSource", "tri_v": "TriangleVoltageSource", "saw_v": "SawtoothVoltageSource",
+           "rect_i": "RectCurrentSource", "tri_i": "TriangleCurrentSource", "saw_i": "SawtoothCurrentSource"}[k]
+    key = "V" if k.endswith("_v") else "I"
+    d_opts = {kk: p[kk] for kk in ("deg",) if kk in p}
+    return getattr(elm, cls)(p[key], p["w"], p["phi"], name, reverse=rev, **d_opts)
+
+
+def lattice_point(xy, geom):
+    import math
+    th = math.radians(geom.get("theta", 0))
+    c, s = round(math.cos(th)), round(math.sin(th))
+    x, y = xy
+    u = geom.get("unit", 2)
+    ox, oy = geom.get("origin", (0, 0))
+    return (ox + u * (c * x - s * y), oy + u * (s * x + c * y))
+
+
+def build_schematic(program, geom=None, style="to"):
+    """Build the real Schematic for a lattice placement program.  style: 'to' (at/to), 'dir' (at/direction/length),
+    'chain' (direction only where an item starts where the previous one ended, 'dir' otherwise)."""
+    import CircuitCalculator.SimpleCircuit.Elements as elm
+    geom = geom or {}
+    d = elm.Schematic(unit=geom.get("unit", 2))
+    prev_end = None
+    for it in program:
+        if it["op"] == "label":
+            d += elm.LabelNode(name=it["name"]).at(lattice_point(it["p"], geom))
+            continue
+        if it["op"] == "ground":
+            d += elm.Ground().at(lattice_point(it["p"], geom)) if "name" not in it else elm.Ground(name=it["name"]).at(lattice_point(it["p"], geom))
+            continue
+        e = elm.Line() if it["op"] == "wire" else _symbol(it)
+        P, Q = lattice_point(it["p"], geom), lattice_point(it["q"], geom)
+        st = style
+        if st == "chain" and (prev_end is None or tuple(it["p"]) != prev_end):
+            st = "dir"
+        if st == "to":
+            e = e.at(P).to(Q)
+        else:
+            dx, dy = Q[0] - P[0], Q[1] - P[1]
+            length = (dx * dx + dy * dy) ** 0.5
+            if abs(dx) >= abs(dy):
+                meth = "right" if dx > 0 else "left"
+            else:
+                meth = "up" if dy > 0 else "down"
+            if st == "dir":
+                e = e.at(P)
+            e = getattr(e, meth)(length)
+        d += e
+        prev_end = tuple(it["q"])
+    return d
